@@ -48,7 +48,7 @@ EXC_PARENT = {
     'SystemExit': 'BaseException', 'CancelledError': 'BaseException',
     'GeneratorExit': 'BaseException', 'BrokenPipeError': 'OSError',
     'WebSocketConnectionClosedException': 'Exception', 'WebSocketTimeoutException': 'Exception',
-    'ServerDisconnectedError': 'Exception',
+    'ServerDisconnectedError': 'Exception', 'ClientError': 'Exception',
     'ArithmeticError': 'Exception', 'ZeroDivisionError': 'ArithmeticError',
     'OverflowError': 'ArithmeticError',
     'LookupError': 'Exception', 'KeyError': 'LookupError', 'IndexError': 'LookupError',
@@ -477,6 +477,13 @@ class Engine:
                 if not memo[ch[1].get_id()][1][2]:
                     idx.append(ch[1])
                 sq, ix = ch[0], ch[1]
+                if z3.is_app(sq) and sq.decl().kind() == z3.Z3_OP_SEQ_EXTRACT and \
+                        z3.is_int_value(sq.arg(1)) and sq.arg(1).as_long() >= 0 and \
+                        not memo[ch[1].get_id()][1][2]:
+                    # an element of a slice s[a:...] is the element a places further in s
+                    base, a = sq.arg(0), sq.arg(1)
+                    ncf.append((xid, (z3.Implies(z3.And(ix >= 0, ix < z3.Length(sq)),
+                                                 x == base[a + ix]),)))
                 if z3.is_app(sq) and sq.decl().kind() == z3.Z3_OP_SEQ_CONCAT and \
                         sq.num_args() == 2:
                     a, b = sq.arg(0), sq.arg(1)
@@ -484,6 +491,8 @@ class Engine:
                     ncf.append((xid, (z3.Implies(z3.And(ix >= 0, ix < la), x == a[ix]),
                                       z3.Implies(z3.And(ix >= la, ix < la + z3.Length(b)),
                                                  x == b[ix - la]))))
+            elif k == z3.Z3_OP_SEQ_NTH and False:
+                pass
             elif k == z3.Z3_OP_SEQ_EXTRACT and len(ch) == 3 and z3.is_app(ch[0]) and \
                     ch[0].decl().kind() == z3.Z3_OP_SEQ_CONCAT and ch[0].num_args() == 2 and \
                     z3.is_int_value(ch[1]) and ch[1].as_long() == 0 and \
@@ -553,9 +562,13 @@ class Engine:
         for f in self.facts:
             if self.fresh_consts(f) <= have:
                 prem.append(f)
+        nf0 = []
+        nseen0 = set()
+        for t in prem[:nprem] + [goal]:
+            self.nth_concat_facts(t, nf0, nseen0)
         cands = list(sk)
         seen = set(c.get_id() for c in cands)
-        for t in prem[:nprem] + [goal]:
+        for t in prem[:nprem] + [goal] + nf0:
             for ix in self.nth_indices(t):
                 if ix.get_id() not in seen and len(cands) < 32:
                     seen.add(ix.get_id())
@@ -2450,6 +2463,11 @@ class Engine:
             raise EngineError('for loop %s at line %d has no invariant' % (ordn, s.lineno))
         self._pre_loop_locals[id(s)] = set(k for k in st.env if not k.startswith('__'))
         i = z3.Int(self.name('i%d' % ordn))
+        # ghost local xs<ordinal>: the sequence being iterated (so that invariants need not
+        # re-derive it from the iterable expression, e.g. a slice)
+        st = st.copy()
+        st.env = dict(st.env)
+        st.env['xs%d' % ordn] = V(List(elemty), xs)
         head = self._loop_head(s, st, spec, ordn, vint(i))
         if head is None:
             return
